@@ -46,7 +46,7 @@ type c01Trace struct {
 	violHist  []string
 	// evidence
 	blocks, txOK, epochsSeen, repeatQueries, repeatHot, metaChecks int
-	polWithReqs2, mixedSeen, relaysOK, months                       int
+	polWithReqs2, mixedSeen, relaysOK, months                      int
 }
 
 func (tr *c01Trace) add(format string, args ...any) {
